@@ -184,6 +184,10 @@ func vfC16Run(c vfC16Case, withReq bool) *vfC16Obs {
 	values := vfC16Value(c.Conns)
 	var completedValue int64 // uniform value of the newest frame whose processing is known to be complete (0: none)
 	var inFlight int32       // 1 while a frame has been released and not yet seen complete
+	// quiet: non-zero (a window number) while the sender waits at the barrier and the last thing the connection
+	// delivered was a good frame that has been processed completely: a snapshot request that starts and ends
+	// inside one such window has no excuse to fail
+	var quiet, quietSeq int64
 	var stop int32
 	var fail atomic.Value
 	setFail := func(s string) {
@@ -241,12 +245,16 @@ func vfC16Run(c vfC16Case, withReq bool) *vfC16Obs {
 						case vfRqSnap, vfRqSnapL:
 							need := atomic.LoadInt64(&completedValue)
 							over := atomic.LoadInt32(&inFlight)
+							q1 := atomic.LoadInt64(&quiet)
 							arg := -1
 							if rq.K == vfRqSnapL {
 								arg = last
 							}
 							f, err := takeSnapshot(arg)
 							if err != nil || f == nil {
+								if q1 != 0 && q1 == atomic.LoadInt64(&quiet) && rq.K == vfRqSnap {
+									setFail(fmt.Sprintf("TakeSnapshot failed (%v) although the frame with value %d of this connection had been processed completely, nothing had arrived since and the sender was waiting: a whole frame was there to be returned", err, need))
+								}
 								continue
 							}
 							atomic.AddInt64(&o.snaps, 1)
@@ -361,6 +369,7 @@ func vfC16Run(c vfC16Case, withReq bool) *vfC16Obs {
 			clear[p] = true
 		}
 		var prevValue int64
+		prevGood := false
 		for fi := range cn.Frames {
 			if clear[fi] {
 				if err := conn.Write([]byte("clear")); err != nil {
@@ -385,6 +394,7 @@ func vfC16Run(c vfC16Case, withReq bool) *vfC16Obs {
 					}
 					pause[fi] = true
 				}
+				prevGood = false
 			}
 			v := values[ci][fi]
 			pix := make([]uint16, cam.W*cam.H)
@@ -403,9 +413,14 @@ func vfC16Run(c vfC16Case, withReq bool) *vfC16Obs {
 					startedOnce = true
 					close(started)
 				}
+				if prevGood {
+					quietSeq++
+					atomic.StoreInt64(&quiet, quietSeq)
+				}
 				if pause[fi] {
 					time.Sleep(300 * time.Microsecond)
 				}
+				atomic.StoreInt64(&quiet, 0)
 				atomic.StoreInt32(&inFlight, 1)
 			})
 			if err != nil {
@@ -413,6 +428,7 @@ func vfC16Run(c vfC16Case, withReq bool) *vfC16Obs {
 				break
 			}
 			prevValue = int64(v)
+			prevGood = true
 		}
 		cerr := conn.Close()
 		atomic.StoreInt32(&inFlight, 0)
@@ -544,6 +560,6 @@ func vfRunC16(c vfC16Case) *kit.Result {
 
 func TestVF_C16(t *testing.T) {
 	kit.Drive(t, "C16", "TestVF_C16",
-		"generated schedules: 1-4 requester goroutines looping over scripts of {TakeSnapshot(-1 / last id), TakeTestRecording, CameraInfo, spin, yield, sleep} while 1-3 camera connections (reconnects, 'clear' markers, bad frames - also as the first frame of a connection, also followed by a 'clear' -, sender pauses at the lock-step barrier) feed uniform-valued frames of increasing value, GOMAXPROCS in {1,2,4,16}, ring capacity 1 and up; built with the race detector. Oracle: every returned snapshot is uniform (a whole frame), stays unchanged while later frames arrive (an exact copy, re-checked after the ring has wrapped), and is at least as new as the newest frame known to be completely processed when the request started; CameraInfo returns a description some camera sent; the pipeline neither stalls nor dies; continuous files equal the request-free twin and every motion file of the twin is present unchanged (extra files are 21-frame test recordings); zero race reports. Non-trivial: a snapshot was returned for a request that overlapped the processing of a frame (measured with atomics around the barrier).",
+		"generated schedules: 1-4 requester goroutines looping over scripts of {TakeSnapshot(-1 / last id), TakeTestRecording, CameraInfo, spin, yield, sleep} while 1-3 camera connections (reconnects, 'clear' markers, bad frames - also as the first frame of a connection, also followed by a 'clear' -, sender pauses at the lock-step barrier) feed uniform-valued frames of increasing value, GOMAXPROCS in {1,2,4,16}, ring capacity 1 and up; built with the race detector. Oracle: every returned snapshot is uniform (a whole frame), stays unchanged while later frames arrive (an exact copy, re-checked after the ring has wrapped), and is at least as new as the newest frame known to be completely processed when the request started; a TakeSnapshot(-1) that starts and ends while the sender waits at the barrier after a completely processed good frame must succeed; CameraInfo returns a description some camera sent; the pipeline neither stalls nor dies; continuous files equal the request-free twin and every motion file of the twin is present unchanged (extra files are 21-frame test recordings); zero race reports. Non-trivial: a snapshot was returned for a request that overlapped the processing of a frame (measured with atomics around the barrier).",
 		vfGenC16, vfRunC16)
 }
